@@ -596,6 +596,18 @@ func genLockTable(repo, out string) {
 		evs       []string
 	}
 	var entries []entry
+	hookHelpers := map[string]bool{}
+	for _, f := range files {
+		for _, d := range f.Decls {
+			if fd, ok := d.(*ast.FuncDecl); ok && fd.Recv == nil && fd.Body != nil {
+				for _, fld := range fd.Type.Params.List {
+					if t := exprString(fld.Type); t == "RemHookFn" || t == "AddHookFn" {
+						hookHelpers[fd.Name.Name] = true
+					}
+				}
+			}
+		}
+	}
 	for _, f := range files {
 		for _, d := range f.Decls {
 			fd, ok := d.(*ast.FuncDecl)
@@ -603,7 +615,22 @@ func genLockTable(repo, out string) {
 				continue
 			}
 			rn, rt := recvName(fd)
-			if (rt != "IndexedState" && rt != "LinearState") || rn == "" {
+			hookParam := ""
+			if fd.Recv == nil {
+				// a package-level helper that is handed one of the state's hooks (runRemHook): its
+				// body is listed under both state types, the call of the parameter as the hook call
+				for _, fld := range fd.Type.Params.List {
+					t := exprString(fld.Type)
+					if (t == "RemHookFn" || t == "AddHookFn") && len(fld.Names) == 1 {
+						hookParam = fld.Names[0].Name
+						rt = map[string]string{"RemHookFn": "remHook", "AddHookFn": "addHook"}[t]
+					}
+				}
+				if hookParam == "" {
+					continue
+				}
+				rn = "\x00"
+			} else if (rt != "IndexedState" && rt != "LinearState") || rn == "" {
 				continue
 			}
 			if fd.Name.Name == "slock" || fd.Name.Name == "sunlock" {
@@ -629,6 +656,10 @@ func genLockTable(repo, out string) {
 						evs = append(evs, "defer-call:"+strings.TrimPrefix(fn, rn+"."))
 						return false
 					}
+					if fn == "ctx.revokePrivilege" {
+						evs = append(evs, "defer-call:revokePrivilege")
+						return false
+					}
 				case *ast.CallExpr:
 					fn := exprString(x.Fun)
 					switch {
@@ -645,6 +676,14 @@ func genLockTable(repo, out string) {
 							kind = "unlock:"
 						}
 						evs = append(evs, kind+mode)
+					case fn == "ctx.grantPrivilege" || fn == "ctx.revokePrivilege":
+						// the "hook" privilege: with it slock/sunlock do nothing (a hook can use the state
+						// although its caller holds the lock)
+						evs = append(evs, "call:"+strings.TrimPrefix(fn, "ctx."))
+					case hookParam != "" && fn == hookParam:
+						evs = append(evs, "call:"+rt)
+					case fd.Recv != nil && hookHelpers[fn]:
+						evs = append(evs, "call:"+fn)
 					case strings.HasPrefix(fn, rn+".Store.") || strings.HasPrefix(fn, rn+".store."):
 						evs = append(evs, "store:"+fn[strings.LastIndex(fn, ".")+1:])
 					case fn == "delete" && len(x.Args) == 2:
@@ -681,6 +720,10 @@ func genLockTable(repo, out string) {
 				}
 				return true
 			})
+			if hookParam != "" {
+				entries = append(entries, entry{"IndexedState", fd.Name.Name, evs}, entry{"LinearState", fd.Name.Name, evs})
+				continue
+			}
 			entries = append(entries, entry{rt, fd.Name.Name, evs})
 		}
 	}
